@@ -390,7 +390,7 @@ theorem splice_spec (super : Name) (c : Combo) (L : List Name) (hnd : L.Nodup) (
         intro g hg
         have : g ≠ f := fun e => hf (e ▸ hg)
         simp [this]
-      simp [splice, List.filterMap_cons, hnone, hrest]
+      simp [splice, hnone, hrest]
     · have hin' : super ∈ fs := by
         rcases List.mem_cons.mp hin with h | h
         · exact absurd h.symm e
@@ -401,7 +401,7 @@ theorem splice_spec (super : Name) (c : Combo) (L : List Name) (hnd : L.Nodup) (
         rw [List.filterMap_cons_none hc]
         have hR : (f :: fs).filterMap (fun g => if g = super then some c else combo g)
             = fs.filterMap (fun g => if g = super then some c else combo g) := by
-          simp [List.filterMap_cons, e, hc]
+          simp [e, hc]
         rw [hR, ← ih']
         cases hcs : fs.filterMap combo with
         | nil => simp [splice, e, splice_nil]
@@ -417,7 +417,7 @@ theorem splice_spec (super : Name) (c : Combo) (L : List Name) (hnd : L.Nodup) (
         have hx : x.src = f := hsrc f x hc
         have hR : (f :: fs).filterMap (fun g => if g = super then some c else combo g)
             = x :: fs.filterMap (fun g => if g = super then some c else combo g) := by
-          simp [List.filterMap_cons, e, hc]
+          simp [e, hc]
         rw [hR, ← ih']
         simp [splice, e, hx]
 
@@ -434,15 +434,15 @@ theorem map_set_spec (fl : Name) (k : Kind) (id : Mid) (L : List Name) :
       rw [List.filterMap_cons_none hc, ih]
       by_cases e : f = fl
       · subst e
-        simp [List.filterMap_cons, hc]
-      · simp [List.filterMap_cons, e, hc]
+        simp [hc]
+      · simp [e, hc]
     | some x =>
       rw [List.filterMap_cons_some hc, List.map_cons, ih]
       have hx : x.src = f := hsrc f x hc
       by_cases e : f = fl
       · subst e
-        simp [List.filterMap_cons, hc, hx]
-      · simp [List.filterMap_cons, e, hc, hx]
+        simp [hc, hx]
+      · simp [e, hc, hx]
 
 end combos
 
@@ -490,7 +490,7 @@ theorem filterMap_vanilla (vm : List Msg) (h : List Form) (m : Msg) :
     [vanilla].filterMap (comboR vm h m) = vanillaTab vm m := by
   have : comboR vm h m vanilla = (vanillaTab vm m).head? := by simp [comboR]
   rw [← vanillaTab_head_toList]
-  cases hh : (vanillaTab vm m).head? <;> simp [List.filterMap_cons, this, hh]
+  cases hh : (vanillaTab vm m).head? <;> simp [this, hh]
 
 theorem daemonR_defined {h : List Form} (hv : validR h = true) {g : Name} {k : Kind} {m : Msg} {id : Mid}
     (hd : daemonR h g k m = some id) : g ∈ definedR h := by
@@ -1003,8 +1003,8 @@ theorem callFrom_spec (all rest : List Combo) :
   | nil => simp [callFrom]
   | cons c rest ih =>
     cases hw : c.whopper with
-    | none => simp [callFrom, hw, List.filterMap_cons, ih]
-    | some w => simp [callFrom, hw, List.filterMap_cons, ih]
+    | none => simp [callFrom, hw, ih]
+    | some w => simp [callFrom, hw, ih]
 
 theorem comboR_get (vm : List Msg) (h : List Form) (m : Msg) (g : Name) (k : Kind) :
     (comboR vm h m g).bind (fun c => c.get k) = daemonVR vm h m k g := by
@@ -1194,7 +1194,7 @@ theorem methodKeysR_eq_filterMap (h : List Form) :
       | .defflavor .. => none) := by
   induction h with
   | nil => rfl
-  | cons f h ih => cases f <;> simp [methodKeysR, List.filterMap_cons, ih]
+  | cons f h ih => cases f <;> simp [methodKeysR, ih]
 
 theorem methodKeysR_nodup_perm {h1 h2 : List Form} (hp : h1.Perm h2) (hu : (methodKeysR h1).Nodup) :
     (methodKeysR h2).Nodup := by
